@@ -81,6 +81,11 @@ func (p *ParseContext) GetTableName() (string, error) {
 		return "", fmt.Errorf("invalid stmt %v", p)
 	}
 
+	if table == nil || table.TableRefs == nil {
+		// SELECT 1 FOR UPDATE, SELECT ... FROM DUAL FOR UPDATE: no table to describe
+		return "", fmt.Errorf("the statement names no table")
+	}
+
 	b := seatabytes.NewByteBuffer([]byte{})
 	table.Restore(format.NewRestoreCtx(format.RestoreKeyWordUppercase, b))
 
